@@ -213,7 +213,7 @@ def asan_summary(log):
 
 def is_eopm_case(sub, mm):
     c = sub["cls"]
-    return (sub["entry"] in ("alone_decoder", "auto_decoder", "raw_decoder") and mm["what"] == "ret"
+    return (sub["entry"] in ("alone_decoder", "auto_decoder", "raw_decoder") and "ret" in mm["what"].split("+")
             and ("known_size+eopm" in c or "known_size-with_eopm" in c or "lzma1ext:allow1:eopm" in c)
             and mm["one"]["ret"] == "STREAM_END" and mm["obs"]["ret"] == "DATA_ERROR")
 
